@@ -223,6 +223,9 @@ func (s *Store) injectLocked(obj client.Object) client.Object {
 	st.SetResourceVersion(s.nextRV())
 	k := keyOf(st.GetNamespace(), st.GetName())
 	old := s.bucket(kind)[k]
+	if kind != KindPod && kind != KindNode && st.GetGeneration() == 0 {
+		st.SetGeneration(1) // as the API server does for a freshly created object
+	}
 	s.bucket(kind)[k] = st
 	if old == nil {
 		s.emit(Event{Type: Added, Kind: kind, New: st})
@@ -276,6 +279,9 @@ func (s *Store) Mutate(kind, ns, name string, f func(o client.Object)) bool {
 	st, err := s.roundTrip(kind, cp)
 	if err != nil {
 		panic(err)
+	}
+	if kind != KindPod && kind != KindNode && specChanged(old, st) {
+		st.SetGeneration(old.GetGeneration() + 1)
 	}
 	st.SetResourceVersion(s.nextRV())
 	s.bucket(kind)[keyOf(ns, name)] = st
@@ -442,6 +448,10 @@ func (s *Store) update(kind string, obj client.Object, sub bool) (client.Object,
 		st.SetDeletionTimestamp(old.GetDeletionTimestamp())
 		st.SetDeletionGracePeriodSeconds(old.GetDeletionGracePeriodSeconds())
 		st.SetGeneration(old.GetGeneration())
+		if kind != KindPod && kind != KindNode && specChanged(old, st) {
+			// metadata.generation counts the changes of the desired state (everything but metadata and status)
+			st.SetGeneration(old.GetGeneration() + 1)
+		}
 	}
 	// the last finalizer of an object that is being deleted was removed: the object goes away
 	if !sub && kind != KindPod && st.GetDeletionTimestamp() != nil && len(st.GetFinalizers()) == 0 {
@@ -496,6 +506,10 @@ func (s *Store) patchMerge(kind string, obj client.Object, data []byte, sub bool
 	st.SetCreationTimestamp(old.GetCreationTimestamp())
 	st.SetDeletionTimestamp(old.GetDeletionTimestamp())
 	st.SetDeletionGracePeriodSeconds(old.GetDeletionGracePeriodSeconds())
+	st.SetGeneration(old.GetGeneration())
+	if !sub && kind != KindPod && kind != KindNode && specChanged(old, st) {
+		st.SetGeneration(old.GetGeneration() + 1)
+	}
 	if !sub && kind != KindPod && st.GetDeletionTimestamp() != nil && len(st.GetFinalizers()) == 0 {
 		delete(s.objs[kind], k)
 		s.emit(Event{Type: Deleted, Kind: kind, Old: old})
@@ -569,4 +583,22 @@ func setListItems(list client.ObjectList, items []client.Object) error {
 		objs[i] = it.DeepCopyObject()
 	}
 	return meta.SetList(list, objs)
+}
+
+// specChanged reports whether two versions of an object differ outside metadata and status.
+func specChanged(a, b client.Object) bool {
+	strip := func(o client.Object) map[string]any {
+		raw, err := json.Marshal(o)
+		if err != nil {
+			return nil
+		}
+		m := map[string]any{}
+		if err := json.Unmarshal(raw, &m); err != nil {
+			return nil
+		}
+		delete(m, "metadata")
+		delete(m, "status")
+		return m
+	}
+	return !reflect.DeepEqual(strip(a), strip(b))
 }
